@@ -14,7 +14,14 @@ positional, keyword, .asynq in a consumer, .asynq().value()), and harness-only `
 changing what the model is asked: thr (every operation on a thread of its own), weak (uncomputed tasks held weakly +
 gc), decoy (a second generator of the same decorated function holds an uncomputed task), dirty (a failed computation
 before), meth (generator function is a method called with a keyword argument), yf (body delegates with yield from),
-dbg (DUMP_* / KEEP_DEPENDENCIES switched on half-way), ret (body returns a value).
+dbg (DUMP_* / KEEP_DEPENDENCIES / COLLECT_PERF_STATS switched on half-way), ret (body returns a value).
+Round 5 (second audit): awaits may be asynq's multi-await forms (one `yield` of a list / tuple / dict of futures, of None,
+of an empty container - the body checks that it is resumed with the same shape holding the awaited results); the sibling
+of a `par` may advance with send(x), x not None (harness-only spelling of next() there: the generator has started); for
+NESTED generators every observation also records how far every level below the outermost one has been advanced, which
+the driver compares with Generator.innerLevels (the documented loop run over the model of the inner generator): "without
+consuming more of the generator than needed" is thereby also checked for the inner generators (direct evaluation, no
+theorem).
 After every operation the result, the number of items the underlying Python generator has yielded, whether it
 ran off its end and whether every await was resumed with the result of the awaited future are recorded.
 The Lean model (AsynqModel.Lib.Generator) replays the same history (correspondence) and the Lean observer
@@ -34,7 +41,7 @@ import random
 PID = "C17"
 LEVEL = "proof"
 LEAN_MODULES = ["AsynqModel.Theorems.C17"]
-THEOREMS = [
+HEADLINE = [
     # the property (hypothesis of the Value-delivery theorems: noMarker b = no Value(END_OF_GENERATOR) item in the body)
     "AsynqModel.Generator.C17_list",
     "AsynqModel.Generator.C17_take",
@@ -48,20 +55,27 @@ THEOREMS = [
     "AsynqModel.Generator.C17_nested_loop",
     "AsynqModel.Generator.C17_nested",
     "AsynqModel.Generator.C17_spec_holds",
-    # the rarely used entry point send(x), x not None (round 4): rejected by a generator that has not started without
-    # moving anything, next() otherwise; C17_spec_holds quantifies over histories with send operations
-    "AsynqModel.Generator.C17_send_rejected",
-    "AsynqModel.Generator.C17_send_started",
-    "AsynqModel.Generator.C17_send_then_iterate",
+    # round 5: the observer accepts EXACTLY the model's observations (no wrong observation is accepted; the `send`
+    # laxity of round 4 is gone), and its clause for a rejected send(x) rejects lost Values for every body with a Value
+    "AsynqModel.Generator.C17_spec_exact",
+    "AsynqModel.Generator.C17_send_rejected_keeps_values",
     # why noMarker is a hypothesis (the statement is unsatisfiable without it) and what the code does there
     "AsynqModel.Generator.C17_marker_payload_unsatisfiable",
     "AsynqModel.Generator.C17_marker_payload_behaviour",
     # adequacy of the model (the fuel of its structurally recursive loops is never used up - any state, any body)
     "AsynqModel.Generator.C17_loops_within_fuel",
-    # holds by construction of the model (first branch of takeFirst); the content is the correspondence run
-    "AsynqModel.Generator.C17_take_zero",
 ]
-BY_CONSTRUCTION = ["AsynqModel.Generator.C17_take_zero"]
+# hold by construction of the model (a branch of takeFirst / sendVal returns the state literally); audited with the
+# others, but NOT part of the claim: their content is the correspondence run and the observer clauses take-zero /
+# send-rejected (C17_spec_exact)
+BY_CONSTRUCTION = [
+    "AsynqModel.Generator.C17_take_zero",
+    "AsynqModel.Generator.C17_send_rejected",
+    "AsynqModel.Generator.C17_send_started",
+    "AsynqModel.Generator.C17_send_fresh_noop",
+    "AsynqModel.Generator.C17_send_then_iterate",
+]
+THEOREMS = HEADLINE + BY_CONSTRUCTION
 BUILDS = {"quick": ["py"], "thorough": ["py", "cy"]}
 EXHAUSTIVE = {"quick": True, "thorough": True}
 RULE = ("every generator body over {await, Value} of length 0-6 (thorough: 0-8) x scripted histories (list; take n for "
@@ -82,7 +96,11 @@ RULE = ("every generator body over {await, Value} of length 0-6 (thorough: 0-8) 
         "dbg, ret) on five scripted histories, flags also drawn at random (5-12%) elsewhere; operations spelled at "
         "random in 7 (next), 3 (send) and 4 (take_first / list_of_generator) public ways; await kinds also: computed "
         "task, one task awaited at several places, DebugBatchItem; Value items also SubValue(...) and Value(value=...); "
-        "third nesting level (scripted up to length 2, random); bodies of length 300 and 1500 (thorough 6000); non-trivial = "
+        "third nesting level (scripted up to length 2, random); bodies of length 300 and 1500 (thorough 6000); ROUND 5: "
+        "await kinds also asynq's multi-await forms ([ConstFuture, task], (batch item, ConstFuture), {a: task, b: batch "
+        "item}, None, empty container; every body of length 1-4 once with all awaits of one such form, thorough: forms 8 "
+        "and 10 for every body, random elsewhere), par siblings that advance with send(x), and for every nested case the "
+        "position of every inner level after every operation; non-trivial = "
         "body with at least one await and one Value and a history of at least 2 operations; distinct by (body, await "
         "kinds, nesting, history) hash")
 TRUSTED = [
@@ -93,7 +111,17 @@ TRUSTED = [
     "ValueError for re-entering an executing generator), the asynq scheduler (C01-C05) computing the tasks",
     "re-entrant advances from the body: judged by the closed-form expectation Generator.reenterExpected evaluated by the "
     "driver (the model has no state 'the body is executing'; no theorem speaks about this family); the rest of such a "
-    "history is judged by Generator.spec as usual",
+    "history is judged by Generator.spec as usual.  Of its three cases, (i) RuntimeError inside the _send_inner task and "
+    "(iii) take_first(gen, 0) = [] are consequences of the property text; (ii) inside send() the property is silent: SPEC "
+    "accepts any exception but StopIteration, CORR demands CPython's ValueError - that part is a REGRESSION TEST of "
+    "today's code, not a verdict on C17",
+    "how far the inner generators of a nested generator are advanced: Generator.innerLevels, a direct evaluation of the "
+    "loop machine outerResume/outerAfter by the driver (C17_nested_loop ties that machine to `wrap`; no theorem states "
+    "the inner positions)",
+    "the observation field `bad` (awaits resumed with the awaited result - also for multi-await forms -, generator "
+    "arguments delivered, another generator of the same function undisturbed) is computed by the harness and is the "
+    "literal 0 in the model (_send_inner's yield_result plumbing is not modelled): these three observer clauses are "
+    "checked on the implementation only, no theorem is about them",
 ]
 ASSUMPTIONS = [
     "no Value payload is the END_OF_GENERATOR marker object itself (hypothesis `noMarker b` of C17_list, C17_take, "
@@ -104,10 +132,17 @@ ASSUMPTIONS = [
     "tasks of one generator are computed by the caller that obtained them; a second consumer only ever advances the "
     "generator as a sibling of the pending task in one yield (the scheduler, C03/C04, runs the pending task first and "
     "as far as it gets without flushing a batch); n >= 0 (the code treats n < 0 like 0)",
-    "send(x): the body ignores what `yield Value(...)` evaluates to, so on a started generator send(x) is next(); "
-    "debug options are not switched while a task of the generator exists if they add per-task state "
-    "(COLLECT_PERF_STATS switched on in mid-flight makes older tasks fail with AttributeError - C20's subject); "
+    "send(x): the body ignores what `yield Value(...)` evaluates to, so on a started generator send(x) is next(); on a "
+    "generator that has not started the model ASSUMES that the rejected send moves nothing (sendVal returns the state "
+    "literally: C17_send_rejected / _send_started / _send_fresh_noop / _send_then_iterate hold by construction); the "
+    "assumption is validated by the correspondence run and enforced on the implementation by the observer clause "
+    "send-rejected, which since round 5 demands exactly TypeError (generator protocol, PEP 342) with nothing moved",
     "asyncio mode (list_of_generator.asyncio(gen)) is outside the statement, which documents the asynq-mode loop",
+    "NOT CHECKED (outside the model, code conforms when probed by hand): the parked party of two consumers being a "
+    "consumer LOOP (`yield list_of_generator.asynq(gen), sibling.asynq()` with the loop's internal task parked on a "
+    "batch item): the model's LastRef.internal is never blocked and Op.par only takes a held future",
+    "C17_reachable: its hypothesis noMarker is proof-technical, no counterexample known (bounded check of the second "
+    "audit: every body of length <= 3 incl. marker items x every history of length <= 4 over 11 operations)",
     "nested generators are outer generators that iterate the inner one as documented (for task in inner: v = yield task; "
     "skip END_OF_GENERATOR; yield Value(v)); their effective body is Generator.wrap of the inner body (Lean: "
     "C17_nested_loop proves that this loop, run over the model of the inner generator, yields exactly `wrap b`; that a "
@@ -138,7 +173,7 @@ def mk_body(shape, rng, kind=None):
     t = 0
     for ch in shape:
         if ch == "a":
-            body.append(["a", rng.randrange(7) if kind is None else kind])
+            body.append(["a", rng.randrange(AWAIT_KINDS) if kind is None else kind])
         elif ch == "e":
             body.append(["e"])
         else:
@@ -209,7 +244,11 @@ SENT_KINDS = 6     # the non-None object sent: plain object | 0 | False | "" | (
 CALL_FORMS = 4     # take_first(gen, n) | take_first(generator=gen, n=n) | yield take_first.asynq(gen, n) in a consumer task
                    # | take_first.asynq(gen, n).value()      (the same four for list_of_generator)
 FLAGS = ["thr", "weak", "decoy", "dirty", "meth", "yf", "dbg", "ret"]
-BLOCKING = (2, 3, 6)    # await kinds that cannot complete before the scheduler flushes a batch
+BLOCKING = (2, 3, 6, 8, 9)    # await kinds that cannot complete before the scheduler flushes a batch
+AWAIT_KINDS = 12   # 0 ConstFuture | 1 task | 2 harness batch item | 3 task awaiting a batch item | 4 computed task |
+                   # 5 one task awaited at several places | 6 DebugBatchItem | round 5, asynq's multi-await forms:
+                   # 7 [ConstFuture, task] | 8 (batch item, ConstFuture) | 9 {"a": task, "b": batch item} | 10 None |
+                   # 11 an empty container ((), [] or {})
 
 
 def send_ops(body, rng):
@@ -298,6 +337,7 @@ def scripted(body, rng, nest=0):
     if any(s[0] == "a" for s in body):
         for adv in ADVS:
             add(par_ops(body, adv))
+        add(par_ops(body, ["next", 1 + rng.randrange(SENT_KINDS)]))      # the sibling advances with send(x), x not None
     for stop_at in range(0, min(L, 4)):
         add(guard_ops(body, stop_at))
     return out
@@ -317,7 +357,10 @@ def random_ops(rng, nops):
             x = rng.random()
             ops.append(["compute", k - 1 if x < 0.7 else (rng.randrange(k) if x < 0.97 else k + rng.randrange(3))])
         elif r < 0.78 and k:
-            ops.append(["par", k - 1 if rng.random() < 0.8 else rng.randrange(k), rng.choice(ADVS)])
+            adv = rng.choice(ADVS)
+            if adv == ["next"] and rng.random() < 0.4:
+                adv = ["next", 1 + rng.randrange(SENT_KINDS)]      # the sibling advances with send(x)
+            ops.append(["par", k - 1 if rng.random() < 0.8 else rng.randrange(k), adv])
             k += 1  # the sibling may have obtained a future (if not, later indices are merely stale)
         elif r < 0.86:
             n = rng.choice([0, 1, 1, 2, 2, 3, 4, 6, 9])
@@ -336,7 +379,7 @@ def gen_case(rng, length=None):
     shape = "".join("a" if rng.random() < p else "v" for _ in range(L))
     if rng.random() < 0.08:     # outside the statement: some Values carry the marker object itself
         shape = "".join("e" if ch == "v" and rng.random() < 0.4 else ch for ch in shape)
-    kind = rng.choice([None, None, 0, 2])
+    kind = rng.choice([None, None, None, 0, 2, 8])
     body = mk_body(shape, rng, kind)
     nest = rng.choice([0, 0, 0, 0, 1, 1, 2, 2, 3])
     ops = random_ops(rng, rng.choice([1, 2, 3, 4, 6, 8, 12]))
@@ -368,7 +411,9 @@ def plan(tier, seed):
     for L in range(0, maxlen + 1):
         for shape in itertools.product("va", repeat=L):
             shape = "".join(shape)
-            kinds = [None, 2] if tier == "quick" else [None, 0, 1, 2, 3, 6]
+            kinds = [None, 2] if tier == "quick" else [None, 0, 1, 2, 3, 6, 8, 10]
+            if tier == "quick" and 1 <= L <= 4:
+                kinds = kinds + [rng.choice([7, 8, 9, 10, 11])]      # every await of the body is a multi-await form
             for kind in kinds:
                 cases += scripted(mk_body(shape, rng, kind), rng, 0)
             if L <= 4:
@@ -461,11 +506,15 @@ def shrink(case):
         if op[0] == "send" and op[1:] not in ([], [0, 0]):
             yield _mk(case, ops=ops[:i] + [["send", 0, 0]] + ops[i + 1:])
     for j, s in enumerate(body):
-        if s[0] == "a" and s[1] != 0:
+        if s[0] == "a" and s[1] not in (0, 2):
+            yield _mk(case, body=body[:j] + [["a", 2 if s[1] in BLOCKING else 0]] + body[j + 1:])
+        if s[0] == "a" and s[1] == 2:
             yield _mk(case, body=body[:j] + [["a", 0]] + body[j + 1:])
         if s[0] == "v" and s[1] >= WILD:
             yield _mk(case, body=body[:j] + [["v", 1 + j]] + body[j + 1:])
     for i, op in enumerate(ops):
+        if op[0] == "par" and op[2][0] == "next" and len(op[2]) > 1:
+            yield _mk(case, ops=ops[:i] + [["par", op[1], ["next"]]] + ops[i + 1:])
         if op[0] == "par":
             yield _mk(case, ops=ops[:i] + [["compute", op[1]]] + ops[i + 1:])
             yield _mk(case, ops=ops[:i] + [["compute", op[1]], op[2]] + ops[i + 1:])
@@ -496,7 +545,9 @@ def neighbours(case, rng):
 def signature(case, v):
     # the failing clause and the kind of operation it fails at, e.g. "fail:guard@take" or "fail:take-zero@take0"
     # (for a body with a marker payload only "fail:end-marker" / "fail:await-result" are possible); round 4:
-    # "fail:send-rejected@send", "fail:<next clause>@send", "fail:reenter-guard@<advance>" (the body's own advance was not
+    # "fail:send-rejected@send" (a send(x) on the unstarted generator moved something or was not refused),
+    # "fail:send-refusal-class@send" (refused, nothing moved, but not with TypeError), "fail:<next clause>@send",
+    # "fail:nested-inner-consumed@<op>" (an inner generator of a nested one was advanced further/less than the loop needs), "fail:reenter-guard@<advance>" (the body's own advance was not
     # refused with RuntimeError while the running task is uncomputed), "fail:reenter-rejected@<advance>" (not refused inside
     # send()), "fail:reenter-take-zero@take0", "fail:generator-arguments@..", "fail:other-generator-disturbed@.."
     return v["spec"]
@@ -699,6 +750,16 @@ def run_case(case):
     class SubValue(Value):
         """a subclass of Value is a Value"""
 
+    def same_shape(got, expected):
+        """the result of a multi-await: the same container type holding the very objects that were awaited"""
+        if expected is None:
+            return got is None
+        if type(got) is not type(expected) or len(got) != len(expected):
+            return False
+        if isinstance(expected, dict):
+            return set(got) == set(expected) and all(got[x] is expected[x] for x in expected)
+        return all(a is b for a, b in zip(got, expected))
+
     def attempt(st, j):
         """code called by the body tries to advance the generator that is executing the body, and is told off"""
         adv = re_at.get(j) if st["main"] else None
@@ -750,6 +811,24 @@ def run_case(case):
                 elif k == 6:
                     # the library's own DebugBatchItem (a batch name of its own per case: the registry is global)
                     f = batching.DebugBatchItem("c17-%d-%d" % (case["id"], id(state)), expected)
+                elif k in (7, 8, 9, 10, 11):
+                    # asynq's multi-await forms: one `yield` of a list / tuple / dict of futures, of None, of an
+                    # empty container; the body must be resumed with the same shape holding the awaited results
+                    e2 = Plain(-j - 5000)
+                    if k == 7:
+                        f, expected = [futures.ConstFuture(expected), echo.asynq(e2)], [expected, e2]
+                    elif k == 8:
+                        f, expected = (st["item"](expected), futures.ConstFuture(e2)), (expected, e2)
+                    elif k == 9:
+                        f, expected = {"a": echo.asynq(expected), "b": st["item"](e2)}, {"a": expected, "b": e2}
+                    elif k == 10:
+                        f, expected = None, None
+                    else:
+                        f = expected = ((), [], {})[j % 3]
+                    got = yield f
+                    if not same_shape(got, expected):
+                        bad[0] += 1
+                    continue
                 else:
                     # ONE task awaited at several places of the body (second use of the same future)
                     if "task" not in shared:
@@ -875,6 +954,10 @@ def run_case(case):
             info["kdone"] = fk.is_computed()
             try:
                 if adv[0] == "next":
+                    if len(adv) > 1 and adv[1]:
+                        # the sibling advances with send(x), x not None: the generator has started (the caller holds
+                        # a future of it), so this is next() - the model is asked for `par k next`
+                        return ("fut", gen.send.asynq(SENT[(adv[1] - 1) % len(SENT)]))
                     return ("fut", next(gen))
                 elif adv[0] == "take":
                     r = yield take_first.asynq(gen, adv[1])
@@ -1022,16 +1105,14 @@ def run_case(case):
             if i == dbg_at:
                 # debug / profiling options switched on in mid-flight (diagnostic output is swallowed by the worker)
                 o = asynq.debug.options
-                names = [n for n in dir(o) if (n.startswith("DUMP_") or n == "KEEP_DEPENDENCIES")
+                names = [n for n in dir(o) if (n.startswith("DUMP_") or n in ("KEEP_DEPENDENCIES", "COLLECT_PERF_STATS"))
                          and isinstance(getattr(o, n), bool)]      # (a cdef class in the compiled build: no __dict__)
                 saved_opts = ({n: getattr(o, n) for n in names}, sys.stderr, asynq.debug.stdout, asynq.debug.stderr)
                 # the DUMP_* options write to asynq.debug.stdout / stderr: keep that out of the worker's pipes
                 sys.stderr = asynq.debug.stdout = asynq.debug.stderr = io.StringIO()
                 for n in names:
                     setattr(o, n, True)
-                # (not COLLECT_PERF_STATS: a task created before it is switched on has no `_id` and fails with
-                #  AttributeError in collect_perf_stats when it completes - a defect of the profiling option, which is
-                #  C20's subject, not a statement of C17; reported in INTEGRATION.md)
+                # (COLLECT_PERF_STATS included since /repo 9ee915e: a task created before it is switched on completes)
             if decoy is not None:
                 decoy_step()
             name = op[0]
@@ -1064,10 +1145,18 @@ def run_case(case):
                 dropped[0] = False
                 gc.collect()     # nothing but the generator's `last_task` refers to the uncomputed task now
             lean_op = [name] if name in ("next", "send", "list") else (op[:2] if name == "take" else op)
+            if name == "par":
+                lean_op = op[:2] + [op[2][:2] if op[2][0] == "take" else op[2][:1]]
             extra = ""
             if re_at:
                 extra = " (re %d %d%s)" % (st0["pulls"], 1 if st0["fin"] else 0, "".join(" " + x for x in relog))
                 del relog[:]
+            if nest:
+                # how far every level BELOW the outermost generator has been advanced, from level nest-1 down to the
+                # body: "without consuming more of the generator than needed" is also about the inner generators
+                extra += " (inner %s)" % " ".join(
+                    "%d %d" % ((pulls[lv], 1 if fin[lv] else 0) if lv else (st0["pulls"], 1 if st0["fin"] else 0))
+                    for lv in range(nest - 1, -1, -1))
             lines.append("(obs %s %s %s %d %d %d%s)" % (sx(lean_op), res, sib, cur_pulls(), 1 if cur_fin() else 0, bad[0],
                                                         extra))
     finally:
@@ -1090,6 +1179,8 @@ def run_case(case):
     if has_marker(body):
         feats.append("marker-payload(outside C17: correspondence only)")
     feats += sorted({"await-kind=%d" % s[1] for s in body if s[0] == "a"})
+    if any(s[0] == "a" and s[1] >= 7 for s in body):
+        feats.append("multi-await")
     feats += sorted({"value-odd:%s" % ("eq-everything", "falsy", "refuses-bool-eq-hash", "is-a-Value", "empty-list-subclass",
                                        "int-subclass-0", "StopIteration-instance", "GeneratorExit-class")[s[1] % 8]
                      for s in body if s[0] == "v" and WILD <= s[1] < FUT})
@@ -1108,6 +1199,10 @@ def run_case(case):
         feats.append("value-None")
     feats += sorted({"op=" + o[0] for o in ops})
     feats += sorted({"flag=" + f for f in flags})
+    if any(o[0] == "par" and o[2][0] == "next" and len(o[2]) > 1 and o[2][1] for o in ops):
+        feats.append("par-sibling-spelled-send(x)")
+    if nest:
+        feats.append("nested:inner-levels-observed")
     feats += sorted({"next-spelling=%d" % o[1] for o in ops if o[0] == "next" and len(o) > 1})
     feats += sorted({"send-spelling=%d" % o[1] for o in ops if o[0] == "send" and len(o) > 1})
     feats += sorted({"sent-object=%d" % o[2] for o in ops if o[0] == "send" and len(o) > 2})
